@@ -18,6 +18,7 @@ class BalanceClient(Client):
     def __init__(self, m):
         self.m = m
         self.iter_end = []       # (state, delta) seen at the loop test after an iteration
+        self.single_removals = []
         self.pre_name = None
         for st in ast.walk(m.loop):
             if isinstance(st, ast.Assign) and isinstance(st.targets[0], ast.Name) and isinstance(st.value, ast.Call) and \
@@ -90,7 +91,11 @@ class BalanceClient(Client):
             if d.endswith("__sol.add_interpolant"):
                 return [(ev, min(added + 1, 3), adv, end)]
             if d.endswith("__sol.remove_interpolant"):
-                return [(ev, max(added - 1, -1), adv, end)]
+                # ONE piece is removed.  A step owns one piece for plain methods but several for Richardson-extrapolated ones (dense_output() returns a
+                # list), so a single removal does not undo a step's add_interpolant: `added` (in units of steps) is left as it is and the removal
+                # is remembered for the report.  Only the counted loop `for _ in range(len(sol) - pre)` removes everything a step added.
+                self.single_removals.append(st)
+                return [(ev, added, adv, end)]
         return [state]
 
     def branch(self, test, state):
